@@ -45,6 +45,37 @@ impl<const L: usize> Text<L> {
         let len = s.upto(if maxlen < L { maxlen } else { L });
         Text { len, bytes: [b'a'; L] }
     }
+    /// Symbolic length; content is `k` two-byte characters (U+00E9) followed by ASCII,
+    /// `k` symbolic, so that byte length and character count differ by a symbolic amount.
+    /// Constant otherwise (size-only harnesses).
+    pub fn draw_len_utf8<S: Src>(s: &mut S, maxlen: usize) -> Self {
+        let len = s.upto(if maxlen < L { maxlen } else { L });
+        let k = s.upto(L / 2);
+        s.assume(2 * k <= len);
+        let mut bytes = [b'a'; L];
+        let mut i = 0;
+        while i < L {
+            if i < 2 * k {
+                bytes[i] = if i % 2 == 0 { 0xc3 } else { 0xa9 };
+            }
+            i += 1;
+        }
+        Text { len, bytes }
+    }
+    /// As [`Text::draw`] but the first `k` (symbolic) characters are two-byte characters.
+    pub fn draw_utf8<S: Src>(s: &mut S, maxlen: usize) -> Self {
+        let mut t = Self::draw(s, maxlen);
+        let k = s.upto(L / 2);
+        s.assume(2 * k <= t.len);
+        let mut i = 0;
+        while i < L {
+            if i < 2 * k {
+                t.bytes[i] = if i % 2 == 0 { 0xc3 } else { 0xa9 };
+            }
+            i += 1;
+        }
+        t
+    }
     /// Concrete length, symbolic ASCII content in the first `sym` bytes.
     pub fn fixed<S: Src, const SYM: usize>(s: &mut S, len: usize) -> Self {
         let head: [u8; SYM] = s.bytes();
@@ -646,6 +677,60 @@ impl<const NC: usize, const NI: usize, const L: usize> SdesCfg<NC, NI, L> {
             c += 1;
         }
         0
+    }
+}
+
+impl<const NC: usize, const NI: usize, const L: usize> SdesCfg<NC, NI, L> {
+    /// Sequential reference writer (RFC 3550 section 6.5): cheaper for the solver than calling
+    /// `byte(i)` for every `i` when a whole image is needed.  Returns the size.
+    pub fn render(&self, buf: &mut [u8]) -> usize {
+        let size = self.size();
+        let mut q = 0;
+        while q < 4 {
+            buf[q] = hdr_byte(q, self.padding, NC as u8, PT_SDES, size);
+            q += 1;
+        }
+        let mut o = 4;
+        let mut c = 0;
+        while c < NC {
+            let ch = &self.chunks[c];
+            buf[o] = (ch.ssrc >> 24) as u8;
+            buf[o + 1] = (ch.ssrc >> 16) as u8;
+            buf[o + 2] = (ch.ssrc >> 8) as u8;
+            buf[o + 3] = ch.ssrc as u8;
+            let start = o;
+            o += 4;
+            let mut i = 0;
+            while i < NI {
+                if i < ch.n {
+                    let it = &ch.items[i];
+                    buf[o] = it.type_;
+                    buf[o + 1] = (it.size() - 2) as u8;
+                    o += 2;
+                    if it.is_priv() {
+                        buf[o] = it.prefix.len as u8;
+                        o += 1;
+                        buf[o..o + it.prefix.len].copy_from_slice(&it.prefix.bytes[..it.prefix.len]);
+                        o += it.prefix.len;
+                    }
+                    buf[o..o + it.value.len].copy_from_slice(&it.value.bytes[..it.value.len]);
+                    o += it.value.len;
+                }
+                i += 1;
+            }
+            // terminator and zero fill to the next 32-bit boundary
+            let end = start + pad4(o - start + 1);
+            buf[o..end].fill(0);
+            o = end;
+            c += 1;
+        }
+        if self.padding > 0 {
+            let end = o + self.padding as usize;
+            buf[o..end - 1].fill(0);
+            buf[end - 1] = self.padding;
+            o = end;
+        }
+        o
     }
 }
 
